@@ -1,0 +1,54 @@
+//go:build verif
+// +build verif
+
+package network
+
+// Read-only accessors for the C10 verification harness (/verif/harness/cmd/c10).
+// Compiled only with the "verif" build tag.
+
+// VerifConnClosed reports whether this side's endpoint of c has been closed.
+// known is false for connection types the accessor does not understand.
+func VerifConnClosed(c Conn) (closed bool, known bool) {
+	switch cc := c.(type) {
+	case *TCPConn:
+		cc.closedMut.Lock()
+		defer cc.closedMut.Unlock()
+		return cc.closed, true
+	case *LocalConn:
+		cc.manager.Lock()
+		defer cc.manager.Unlock()
+		_, ok := cc.manager.conns[cc.local]
+		return !ok, true
+	}
+	return false, false
+}
+
+// VerifRegistered reports whether c is in the router's connection table.
+func (r *Router) VerifRegistered(c Conn) bool {
+	r.Lock()
+	defer r.Unlock()
+	for _, arr := range r.connections {
+		for _, cc := range arr {
+			if cc == c {
+				return true
+			}
+		}
+	}
+	return false
+}
+
+// VerifTableSize returns the number of registered connections.
+func (r *Router) VerifTableSize() int {
+	r.Lock()
+	defer r.Unlock()
+	n := 0
+	for _, arr := range r.connections {
+		n += len(arr)
+	}
+	return n
+}
+
+// VerifLocalListening reports whether addr is registered as listening in lm.
+func (lm *LocalManager) VerifLocalListening(addr Address) bool {
+	return lm.isListening(addr)
+}
